@@ -453,14 +453,14 @@ def cases(tier, seed):
                 for op in ('min', 'max'):
                     if ty.bits == 32 or full:
                         szs = sizes_minmax(V, True) if full else (sizes_minmax(V, False) if ty.kind == 'float' else sizes_min(V))
-                        if ty.kind == 'float': szs = [x for x in szs if x <= 9]
+                        if ty.kind == 'float' or ty.bits == 64: szs = [x for x in szs if x <= 9]
                         for i, n in enumerate(szs):
                             out.append(minmax_case(op, ty, (n,), cfg, ['own', 'map'][i % 2]))
                         if ty.kind == 'int':
                             out.append(minmax_case(op, ty, (min(V, 8) + 2,), cfg, 'expr'))
                             if full: out.append(minmax_case(op, ty, (2, 3), cfg, 'expr-sub'))
                         else:
-                            for n in ((V + 1,) if not full else sizes_few(V)):
+                            for n in ((min(V, 8) + 1,) if not full else [x for x in sizes_few(V) if x <= 9]):
                                 out.append(minmax_case(op, ty, (n,), cfg, 'own', dom='inf'))
                         if full or ty.kind == 'float': out.append(minmax_case(op, ty, (2, min(V, 4)), cfg, 'own'))
                     elif main_std:
